@@ -309,6 +309,43 @@ def journal_findings(repo, fi, cg, ctxvars):
                     out.append((c.func.value.id, res, norm(n.stmt)[:70], ok,
                                 "" if ok else f"`{norm(n.stmt)[:60]}` in {h.qual} can run before the acquire it records has completed: "
                                               f"the rollback then releases {res} once more than was acquired"))
+    # what is journaled is what was acquired, and the rollback hands it back in the same roles:
+    #   acquire A(x, y) ... J.append(<x or (x, y)>) ... for <x or (x, y)> in reversed(J): R(x, y)
+    for n in ast.walk(fn):
+        if not isinstance(n, ast.For):
+            continue
+        it = n.iter
+        if isinstance(it, ast.Call) and isinstance(it.func, ast.Name) and it.func.id in ("reversed", "list", "tuple") and it.args:
+            it = it.args[0]
+        if not (isinstance(it, ast.Name) and it.id in journals):
+            continue
+        j = it.id
+        tvars = [norm(e) for e in n.target.elts] if isinstance(n.target, (ast.Tuple, ast.List)) else [norm(n.target)]
+        rel_calls = [c for st in n.body for c in ast.walk(st) if isinstance(c, ast.Call) and any(k == "rel" for r, k, d in classify_stmt(ast.Expr(value=c), ctxvars))]
+        entries = []
+        for h in holders:
+            for c in ast.walk(h.node):
+                if isinstance(c, ast.Call) and isinstance(c.func, ast.Attribute) and c.func.attr == "append" and isinstance(c.func.value, ast.Name) and c.func.value.id == j and len(c.args) == 1:
+                    e = c.args[0]
+                    comps = [norm(x) for x in e.elts] if isinstance(e, ast.Tuple) else [norm(e)]
+                    # the acquire that precedes the append in the same block
+                    blk = getattr(c, "_parent", None)
+                    while blk is not None and not isinstance(blk, ast.stmt):
+                        blk = getattr(blk, "_parent", None)
+                    acqs = [a for a in ast.walk(h.node) if isinstance(a, ast.Call) and a is not c and any(k == "acq" for r, k, d in classify_stmt(ast.Expr(value=a), ctxvars))]
+                    entries.append((h, comps, acqs))
+        for c in rel_calls:
+            rargs = [norm(a) for a in c.args]
+            ok = bool(entries) and rargs[:len(tvars)] == tvars
+            detail = ""
+            for h, comps, acqs in entries:
+                if len(comps) != len(tvars):
+                    ok, detail = False, f"the journal holds {comps} but the rollback unpacks {tvars}"
+                elif acqs and not any([norm(a) for a in q.args][:len(comps)] == comps for q in acqs):
+                    ok, detail = False, f"`{j}.append({', '.join(comps)})` does not record the arguments of the acquire it follows ({[norm(q)[:50] for q in acqs]})"
+            if not ok and not detail:
+                detail = f"the rollback calls `{norm(c)[:60]}` although an entry of `{j}` is {tvars}: the release gets its arguments in other roles than the acquire"
+            out.append((j, journals[j], f"rollback:{norm(c.func)}({', '.join(tvars)})" if ok else f"rollback:{norm(c)[:60]}", ok, detail))
     for j, res in journals.items():
         if not any(o[0] == j for o in out):
             out.append((j, res, f"{j}.append(...)", False,
